@@ -28,7 +28,11 @@ def gen_cases(rng, tier):
                 # larger repetition counts (powers of two and their neighbours, multiples of 16) on small dice
                 h = gens.hist(rng, max_faces=2, frac_p=0.0, style=rng.choice(["unit", "pos"]))
                 m = rng.choice([15, 16, 17, 31, 32, 33, 48, 64])
+                npcounts = rng.random() < 0.5
             c = {"kind": "matmul_h", "n": m, "h": h, "m2": rng.randint(1, 4)}
+            if locals().get("npcounts"):
+                c["ctyp"] = "npint64"     # counts given as NumPy integers are the ints they equal: h.total**n is exact
+                npcounts = False
             if rng.random() < 0.3:
                 # the repetition count in other numeric types: integral ones are accepted, non-integral rejected
                 c["ntyp"] = rng.choice(["float", "Fraction", "bool", "Decimal"])
@@ -103,7 +107,11 @@ def impl_run(case):
             return {"exc": type(e).__name__}
     try:
         if k == "matmul_h":
-            h = H(gens.py_hist_dict(case["h"]))
+            d = gens.py_hist_dict(case["h"])
+            if case.get("ctyp") == "npint64":
+                import numpy
+                d = {o: numpy.int64(c) for o, c in d.items()}
+            h = H(d)
             res = _n_py(case) @ h
             extra = {}
             if case["n"] >= 1:
